@@ -501,7 +501,12 @@ def mon_C13(t):
                 want[(ex["id"], kd, bool(before), tm, mk)] += 1
     got = collections.Counter()
     where = {}
+    # in a run that died, the "before" hooks of the request that killed it have no occurrence: they are the probe calls after
+    # the last thing that actually happened
+    last_real = max([k for k, e in enumerate(ev) if e[0] in (4, 5, 6) or (e[0] == 3 and e[1] in (7, 8, 9, 10))] + [-1])
     for k, e in enumerate(ev):
+        if e[0] == 2 and t.error is not None and k > last_real and e[3] is True:
+            continue
         if e[0] == 2:
             # the time of the occurrence: the clock, except for session-after hooks (clock = last step of the session)
             tm = e[4]
@@ -513,8 +518,6 @@ def mon_C13(t):
     for key, c in got.items():
         w = want.get(key, 0)
         if c > w:
-            if t.error is not None and key[2] is True and c == w + 1:
-                continue      # the "before" hook of the request that aborted the run
             out.append(V("hook-fired-without-matching-occurrence" if w == 0 else "hook-fired-more-than-once-per-occurrence",
                          where[key], hook=key, times=c, expected=w))
     if t.error is None:
